@@ -58,7 +58,9 @@ uint StatCoder::encodeSymbol(uchar symbol, uchar *text, uint *offset) {
 
 uchar *StatCoder::encodeString(uchar *str, uint strLen, uint *encLen,
                                uint *offset) {
-  uchar *encoded = new uchar[4 * strLen];
+  // A codeword takes up to 32 bits, and encodeSymbol clears the byte that
+  // follows the last one it completes
+  uchar *encoded = new uchar[4 * (size_t)strLen + 1];
   *encLen = 0;
   encoded[*encLen] = 0;
   *offset = 0;
